@@ -1051,9 +1051,19 @@ func getFiletype(filetype string) (filetype, error) {
 	case "fifo":
 		return fifoFiletype, nil
 	default:
+		// Listed rules show the numeric value unless IDs are resolved.
+		if num, err := parseNum(filetype); err == nil {
+			switch ft := filetypeFromNum(num); ft {
+			case fileFiletype, dirFiletype, socketFiletype, linkFiletype,
+				characterFiletype, blockFiletype, fifoFiletype:
+				return ft, nil
+			}
+		}
 		return 0, fmt.Errorf("invalid filetype '%v'", filetype)
 	}
 }
+
+func filetypeFromNum(num uint32) filetype { return filetype(num) }
 
 // String returns the string representation of a filetype
 func (ft filetype) String() string {
